@@ -190,6 +190,13 @@ def factories():
         X = M.SquareLowRankUpdateMatrix(M.DenseRectangularMatrix(U), M.DenseRectangularMatrix(V), M.DenseSquareMatrix(A), sign=1)
         X.capacitance_matrix
         out.append(("capacitance present before derivation", X, A + U @ V))
+        # inner dimension 2 (the capacitance matrix is a genuine, non-symmetric 2x2 matrix), diagonal outer matrix to keep terms small
+        U2, V2, d2 = mat("u", 2, 2), mat("v", 2, 2), vec("d", 2)
+        X = M.SquareLowRankUpdateMatrix(M.DenseRectangularMatrix(U2), M.DenseRectangularMatrix(V2), M.DiagonalMatrix(d2), sign=1)
+        X.capacitance_matrix
+        out.append(("inner-dim 2 capacitance present", X, np.diag(d2) + U2 @ V2))
+        X = M.SquareLowRankUpdateMatrix(M.DenseRectangularMatrix(U2), M.DenseRectangularMatrix(V2), M.DiagonalMatrix(d2), sign=-1)
+        out.append(("inner-dim 2 lazy sign=-1", X, np.diag(d2) - U2 @ V2))
         return out
 
     @add("SymmetricLowRankUpdateMatrix")
